@@ -85,14 +85,28 @@ pub fn gen_text(rng: &mut Rng, w: usize, tag: &str, max_lines: usize, allow_spec
     s
 }
 
+/// Style attributes a key of a generated template may carry (colours are enabled in the harness
+/// process, so they really put SGR sequences around the value).
+pub const KEY_STYLES: [&str; 3] = [":.green", ":.red.bold", ":.dim"];
+
+fn styled(rng: &mut Rng, key: &str, on: bool) -> String {
+    if on && rng.chance(1, 3) {
+        format!("{{{key}{}}}", rng.pick(&KEY_STYLES))
+    } else {
+        format!("{{{key}}}")
+    }
+}
+
 /// A template of the model-renderable family. `{obs}` appears exactly once.
 pub fn gen_template(rng: &mut Rng, tag: &str, tabs: bool) -> String {
+    // one template in five has style attributes on some of its keys
+    let st = rng.chance(1, 5);
     let n_lines = rng.weighted(&[6, 3, 1]) + 1;
     let mut lines = vec![];
     for li in 0..n_lines {
         let mut l = String::new();
         if li == 0 {
-            l.push_str("{obs}");
+            l.push_str(&styled(rng, "obs", st));
         }
         if !tabs && rng.chance(1, 25) {
             // an opening brace followed by a line break: literal text that contains a line break
@@ -116,10 +130,10 @@ pub fn gen_template(rng: &mut Rng, tag: &str, tabs: bool) -> String {
         }
         for _ in 0..rng.range(1, 3) {
             match rng.below(7) {
-                0 | 1 => l.push_str("{msg}"),
-                2 => l.push_str("{prefix}"),
-                3 => l.push_str("{pos}"),
-                4 => l.push_str("{len}"),
+                0 | 1 => l.push_str(&styled(rng, "msg", st)),
+                2 => l.push_str(&styled(rng, "prefix", st)),
+                3 => l.push_str(&styled(rng, "pos", st)),
+                4 => l.push_str(&styled(rng, "len", st)),
                 5 => l.push_str(if tabs { "\t" } else { ":" }),
                 _ => l.push_str(*rng.pick(&[" ", "|", "-", "é", "\x1b[1m", "[]"])),
             }
